@@ -48,6 +48,7 @@ def info():
 class Recorder:
     def __init__(self):
         self.tb = []
+        self.tb2 = []       # calls of the untranslated hypergeo functions: (id, a, x, value)
         self.on = True
 
     def rec(self, name, x, v):
@@ -154,6 +155,28 @@ class Twin:
                 d["lgamma"] = lambda x: r.rec("lgamma", x, c_lgamma(x))
             if "sqrt" in d:
                 d["sqrt"] = c_sqrt
+        # the untranslated functions approx.py calls in hypergeo.py: recorded with their results
+        inv0, der0 = self.hypergeo._gammainc_inv, self.hypergeo._gammainc_der
+
+        def inv(a, x):
+            with np.errstate(all="ignore"):
+                v = float(inv0(float(a), float(x)))
+            r.tb2.append((5, float(a), float(x), v))
+            return v
+
+        def der(a, x):
+            r.on = False             # its own log / exp / lgamma calls are not the model's business
+            try:
+                v = float(der0(float(a), float(x)))
+            except AssertionError:
+                r.tb2.append((7, float(a), float(x), 0.0))
+                raise
+            finally:
+                r.on = True
+            r.tb2.append((6, float(a), float(x), v))
+            return v
+        self.hypergeo._gammainc_inv = inv
+        self.hypergeo._gammainc_der = der
 
     @staticmethod
     def _load(repo, name):
@@ -175,8 +198,11 @@ class Twin:
     def call(self, pyname, args):
         """-> (normalised output, table of recorded special-function values)"""
         self.r.tb = []
+        self.r.tb2 = []
         f = self.fn(pyname)
         out = run_py(f, args)
+        if info()["meta"][pyname].get("uses_ext"):
+            return out, (list(self.r.tb), list(self.r.tb2))
         return out, list(self.r.tb)
 
 
@@ -230,9 +256,19 @@ def coq_table(tb):
     return "[" + "; ".join("((%d)%%Z, %s, %s)" % (i, cfloat(x), cfloat(v)) for i, x, v in tb) + "]"
 
 
+def coq_table2(tb2):
+    return "[" + "; ".join("((%d)%%Z, %s, %s, %s)" % (i, cfloat(a), cfloat(x), cfloat(v)) for i, a, x, v in tb2) + "]"
+
+
 def coq_term(pyname, args, tb):
     m = info()["meta"][pyname]
     a = " ".join(coq_arg(x) for x in args)
+    if m.get("uses_ext"):
+        tb, tb2 = tb
+        show = {(False, False): "", (True, False): "show_n ", (False, True): "show_e ", (True, True): "show_en "}[
+            (m["can_nan"], m["can_raise"])]
+        return "(let F := FF %s in %s(%s FNum F (hypfns FNum F) (EF %s) %s))" % (
+            coq_table(tb), show, m["coq"], coq_table2(tb2), a)
     show = {(False, False): "", (True, False): "show_n ", (False, True): "show_e ", (True, True): "show_en "}[
         (m["can_nan"], m["can_raise"])]
     if m["module"] == "approx":
@@ -413,6 +449,20 @@ def gen_args(rng, pyname, tame=False):
         u = rng.random()
         gap = lu(rng, 1e-7, 1e-3) if u < 0.2 else lu(rng, 1e-3, 20.0)
         return [x, math.log(x) - gap]
+    if pyname == "approximate_gamma_iqr":
+        import scipy.special as sc
+        q1, q2 = rng.choice([(0.25, 0.75), (0.05, 0.95), (0.4, 0.6), (0.1, 0.5)])
+        cap = rng.choice([1000.0, 1000.0, 50.0])
+        u = rng.random()
+        if u < 0.15:
+            return [wild(rng) if rng.random() < 0.5 else q1, q2, wild(rng), wild(rng), cap]
+        al, be = lu(rng, 1e-2, 5e3), lu(rng, 1e-8, 1e8)
+        x1, x2 = float(sc.gammaincinv(al, q1)) / be, float(sc.gammaincinv(al, q2)) / be
+        if u < 0.25:
+            x2 = x1
+        elif u < 0.3:
+            x1, x2 = x2, x1
+        return [q1, q2, x1, x2, cap]
     if pyname == "_valid_gamma":
         return [wild(rng), wild(rng)] if rng.random() < 0.5 else [lu(rng, 1e-3, 1e4), lu(rng, 1e-9, 1e9)]
     if pyname in ("_valid_hyp1f1", "_valid_hyperu"):
